@@ -426,7 +426,7 @@ def linear_program(p):
             if t["direct"]:
                 out.append(("direct", tick, k))
             if t["sets"]:
-                out.append(("set", tick, k, 100 * (k + 1) + n[k]))
+                out.append(("set", tick, k, 0 if n[k] % 3 == 2 else 100 * (k + 1) + n[k]))      # 0: a falsy value is a value
             n[k] += 1
     return out
 
@@ -437,7 +437,7 @@ def static_oracle(p, log):
     tpb = p["tpb"]
     vals = p["static"]["vals"]
     durs = [F(a, b) for a, b in p["static"]["durs"]]
-    eps = F(1, 10 ** 9)
+    eps = F(0) if p.get("dyadic") else F(1, 10 ** 9)      # dyadic grids: the floats of the code are exact
     # the records must be the ones the schedule asks for
     want = linear_program(p)
     if [tuple(x[:3]) for x in log] != [tuple(x[:3]) for x in want]:
